@@ -206,7 +206,7 @@ func (c10) exercise(c *fw.Case, rs *jsonschema.Resolved, schemaText string, hasR
 	for k := 0; k < 5; k++ {
 		im := gen.Value(r, gen.ValueOpts{MaxDepth: 3, BigInts: true, MaxLen: 3}, 0)
 		switch {
-		case k == 3 && r.IntN(3) == 0:
+		case k == 3 && r.IntN(2) == 0:
 			im = gen.LongValue(r) // size stress: 63..257 items / properties
 		case k == 4:
 			if _, isObj := parsed.(map[string]any); !isObj {
